@@ -1,11 +1,13 @@
 package c04
 
 import (
+	"encoding/json"
 	"fmt"
 	"math/rand"
 	"regexp"
 	"strconv"
 	"strings"
+	"sync"
 	"unicode/utf8"
 )
 
@@ -57,11 +59,11 @@ type alt struct {
 type node struct {
 	id    int
 	kind  kind
-	lit   string // scalar literal text as printed (quoted for strings); "@t" for kRef
-	num   int64  // numbers: value scaled by 1000
-	sig   int    // numbers: significant fraction digits (trailing zeros dropped)
-	str   string // strings: content (printed without escapes)
-	keys  []string
+	lit   string   // scalar literal text as printed (quoted for strings); "@t" for kRef
+	num   int64    // numbers: value scaled by 1000
+	sig   int      // numbers: significant fraction digits (trailing zeros dropped)
+	str   string   // strings: content (printed without escapes)
+	keys  []string // objects: property names in their RAW spelling (the text between the double quotes, escapes included)
 	kids  []*node
 	rules []rule
 	mode  string // plain | enum | or | any | ref | format | shortcut
@@ -241,7 +243,7 @@ func (p *printer) value(n *node, indent string, tail string) {
 		for i, k := range n.kids {
 			p.put(indent + "  ")
 			if n.kind == kObj {
-				p.put(quoteJSON(n.keys[i]) + ": ")
+				p.put(`"` + n.keys[i] + `": `)
 			}
 			t := ","
 			if i == len(n.kids)-1 {
@@ -372,6 +374,89 @@ func (g *gen) newNode(k kind) *node {
 }
 
 var keyPool = []string{"a", "b", "c", "id", "name", "k1", "x y", "é", "Z_9", "list", "o", "v-1", "q.r", "0"}
+
+// A property name of a plain-JSON example is an ARBITRARY JSON string. The names below are ordinary
+// quoted keys whose content looks like another syntactic class of the schema language (or of JSON):
+// it must make no difference to any rule of the value under / below such a key.
+// All entries are RAW spellings (the text between the quotes).
+var (
+	// the content is (or starts like) a user type name: quoted, it is NOT a key shortcut
+	keyTypeNameLike = []string{"@id", "@type", "@context", "@graph", "@index", "@a", "@A-b_9", "@t1", "@t2", "@t3", "@t4", "@0", "@", "@@a", "@a b", "@a.b", "@é", "@a|@b", "@-"}
+	// comment / annotation openers and closers
+	keyCommentLike = []string{"#x", "#", "###", "//", "/*", "*/", "/* x */", "// x", "a // b", "a#b", "/", "// {min: 1}", `/* {type: \"integer\"} */`, `#\n`}
+	// the DECODED name begins and / or ends with a double quote
+	keyQuoted = []string{`\"x\"`, `\"\"`, `\"`, `\"@id\"`, `\"a`, `a\"`, `a\"b`, `\"a b\"`, `\u0022x\u0022`, `\"\\\"`}
+	// escape sequences (some decode to names of the other classes)
+	keyEscapes = []string{`\\`, `a\\b`, `\\\\`, `\/`, `\/\/`, `\/*`, `\n`, `a\tb`, `\r\n`, `\b\f`, `\u0041`, `\u0040id`, `\u0040t1`, `\u00e9`, `\ud83d\ude00`, `\u0023x`, `a\u0020b`, `\\n`, `\\\"`, `\\u0041`}
+	// rule names, type names, literals, numbers
+	keyKeywords = []string{"or", "enum", "type", "min", "max", "optional", "nullable", "const", "regex", "allOf", "additionalProperties", "minItems", "exclusiveMinimum", "precision",
+		"any", "mixed", "integer", "string", "object", "array", "email", "true", "false", "null", "1", "-1.5", "0e1", "1e5"}
+	// structural characters and blanks
+	keyStructural = []string{"", " ", "  ", "{", "}", "[", "]", "{}", "[]", ":", ",", "a:b", "a,b", "a: 1", "{a: 1}", "[1, 2]", "\\t", "|", "a | b", "'", "'a'", "`", "<", "&", "%s", "\u00a0"}
+)
+
+var specialKeyPools = [][]string{keyTypeNameLike, keyTypeNameLike, keyCommentLike, keyQuoted, keyQuoted, keyEscapes, keyKeywords, keyStructural, {""}}
+
+var keyClassCache sync.Map // raw spelling -> class
+
+// decodeKey: the property name a raw spelling denotes.
+func decodeKey(raw string) string {
+	var s string
+	if err := json.Unmarshal([]byte(`"`+raw+`"`), &s); err != nil {
+		panic("key spelling " + raw + ": " + err.Error())
+	}
+	return s
+}
+
+// keyClass: the syntactic class a property name (given by its raw spelling) looks like.
+func keyClass(raw string) string {
+	if c, ok := keyClassCache.Load(raw); ok {
+		return c.(string)
+	}
+	c := keyClassOf(raw)
+	keyClassCache.Store(raw, c)
+	return c
+}
+
+func keyClassOf(raw string) string {
+	d := decodeKey(raw)
+	switch {
+	case d == "":
+		return "empty"
+	case d[0] == '@':
+		return "typename-like"
+	case d[0] == '"' || d[len(d)-1] == '"':
+		return "quote-wrapped"
+	case d[0] == '#' || strings.Contains(d, "//") || strings.Contains(d, "/*") || strings.Contains(d, "*/"):
+		return "comment-like"
+	case strings.Contains(raw, `\`):
+		return "escapes"
+	case strings.TrimSpace(d) == "" || strings.ContainsAny(d, "{}[]:,|'`"):
+		return "structural"
+	}
+	for _, k := range keyKeywords {
+		if d == k {
+			return "keyword"
+		}
+	}
+	return "ordinary"
+}
+
+// key picks the raw spelling of a property name: an ordinary name, a name of one of the special
+// classes, or a special name composed from a class marker and an ordinary name.
+func (g *gen) key() string {
+	if !g.p(0.4) {
+		return keyPool[g.r.Intn(len(keyPool))]
+	}
+	if g.p(0.2) {
+		pre := []string{"@", "@", "#", "//", "/*", `\"`, `\\`, "", ""}[g.r.Intn(9)]
+		mid := []string{"a", "id", "name", "k1", "Z_9", "v-1", "type", "t1", "t2", "x y", "é"}[g.r.Intn(11)]
+		suf := []string{"", "", "", `\"`, "*/", " ", `\n`, ":"}[g.r.Intn(8)]
+		return pre + mid + suf
+	}
+	pool := specialKeyPools[g.r.Intn(len(specialKeyPools))]
+	return pool[g.r.Intn(len(pool))]
+}
 
 var strAlphabet = []string{"a", "b", "c", "x", "y", "z", "A", "B", "0", "1", "9", " ", "_", "-", ".", "@", "é", "ж", "😀"}
 
@@ -1282,11 +1367,12 @@ func (g *gen) value(depth, maxDepth int, inObj bool) *node {
 	used := map[string]bool{}
 	for i := 0; i < w; i++ {
 		if k == kObj {
-			key := keyPool[g.r.Intn(len(keyPool))]
-			if used[key] {
+			key := g.key()
+			if dk := decodeKey(key); used[dk] { // two spellings of one name are one key
 				continue
+			} else {
+				used[dk] = true
 			}
-			used[key] = true
 			n.keys = append(n.keys, key)
 		}
 		n.kids = append(n.kids, g.value(depth+1, maxDepth, k == kObj))
